@@ -294,6 +294,13 @@ func c04Scenarios(thorough bool) []string {
 			}
 		}
 	}
+	// two membership operations at once (a leave racing a join between the leaver and its
+	// successor) with readers of a key the leaver hands over
+	jj := B + (C-B)/2
+	out = append(out, fmt.Sprintf("%s#key=1#c=get,list@%d", mk([]uint64{A, B, C}, fmt.Sprintf("leave:%d;join:%d:%d", B, jj, A)), A))
+	if thorough {
+		out = append(out, fmt.Sprintf("%s#key=0#c=put:x1@%d;get@%d", mk([]uint64{A, B, C}, fmt.Sprintf("leave:%d;join:%d:%d", B, jj, A)), C, A))
+	}
 	return out
 }
 
@@ -321,7 +328,7 @@ func c04(c *report.Check) {
 	c.Set("distinct_nontrivial", len(sum.Outcomes))
 	c.Set("scenarios", len(scns))
 	c.Set("deviation_bound", bound)
-	c.Set("rule", fmt.Sprintf("%d scenarios: one membership operation (join into the arc holding the key / leave of the key's owner) racing two client threads of 1-2 KV operations each on that key (simple value and prefix children) through chosen entry nodes incl. the node that hands the key over; every schedule with at most %d deviations (preemptions or non-default picks at blocking points) on real nodes behind the RPC view model, statement-level scheduling points in membership, lookup, kvMiddleware and Import; after the ring quiesces the key is read through every remaining node; operations refused with a retryable error are dropped, ErrKVPrefixConflict/ErrKVSimpleConflict are legal no-effect results, any other error is a violation; the recorded history (call/return in schedule order, final reads included) is checked for linearizability against a register+set model with porcupine; 'states' = distinct histories", len(scns), bound))
+	c.Set("rule", fmt.Sprintf("%d scenarios: one membership operation (join into the arc holding the key / leave of the key's owner; plus a leave racing a join next to the leaver) racing two client threads of 1-2 KV operations each on that key (simple value and prefix children) through chosen entry nodes incl. the node that hands the key over; every schedule with at most %d deviations (preemptions or non-default picks at blocking points) on real nodes behind the RPC view model, statement-level scheduling points in membership, lookup, kvMiddleware and Import; after the ring quiesces the key is read through every remaining node; operations refused with a retryable error are dropped, ErrKVPrefixConflict/ErrKVSimpleConflict are legal no-effect results, any other error is a violation; the recorded history (call/return in schedule order, final reads included) is checked for linearizability against a register+set model with porcupine; 'states' = distinct histories", len(scns), bound))
 	var samples []any
 	for i, s := range scns {
 		if i%(len(scns)/3+1) == 0 {
